@@ -74,6 +74,8 @@ package dns
 //@   exit key: ret0 == nil ==> rr.Hdr.Class == k.Hdr.Class && rr.Algorithm == k.Algorithm && k.Protocol == 3 && (k.Flags / 256) % 2 == 1
 //@   exit tag: ret0 == nil ==> rr.KeyTag == callres("KeyTag")
 //@   exit cover: ret0 == nil ==> h0.Class == rr.Hdr.Class && h0.Rrtype == rr.TypeCovered
+//@   assert at "if k.Protocol != 3 {" signer: callres("equal") && callarg("equal", 0) == signerName && callarg("equal", 1) == k.Hdr.Name && signerName == callres("CanonicalName")
+//@   assert at "sigwire := new(rrsigWireFmt)" rrsetchecks: uint8(callres("CountLabel")) >= rr.Labels && callres("equal") && callarg("equal", 0) == h0.Name && callarg("equal", 1) == rr.Hdr.Name && callres("HasSuffix") && callarg("HasSuffix", 1) == signerName
 //@   assert at "n, err := packSigWire(sigwire, signeddata)" sigvars: sigwire.TypeCovered == rr.TypeCovered && sigwire.Algorithm == rr.Algorithm && sigwire.Labels == rr.Labels && sigwire.OrigTtl == rr.OrigTtl && sigwire.Expiration == rr.Expiration && sigwire.Inception == rr.Inception && sigwire.KeyTag == rr.KeyTag
 
 //@ func (*RRSIG).signAsIs [C10]
